@@ -71,6 +71,21 @@ class Doc(object):
                             if ex.get("header") is None:
                                 ex["header"], ex["rows"] = ["c"], [["1"]]
         fix(a)
+        if rng.random() < 0.3:
+            # copy/paste twins: scenarios with the same keyword and the same title (at different lines) are different scenarios
+            plain = []
+
+            def collect(c):
+                for it in c["items"]:
+                    if it["kind"] == "rule":
+                        collect(it)
+                    elif it["kind"] == "scenario":
+                        plain.append(it)
+            collect(a)
+            if len(plain) >= 2:
+                twins = rng.sample(plain, rng.choice([2, 2, 3]) if len(plain) >= 3 else 2)
+                for it in twins:
+                    it["name"] = "Stwin same title"
         self.abstract = a
         self.fname = fname
         self.text, self.lines = render_feature(a, rng, layout=rng.random() < 0.6, language_header=(lang if lang != "en" else None))
